@@ -21,7 +21,8 @@ RULE = ("Hypothesis-generated (cost table T x K, beta) pairs: class E = multiple
         "the reported cost must equal the exact cost of the returned sequence, labels integral in [0,K). "
         "Non-trivial = T>=2, K>=2 and (the optimum differs from sum_i min_k c_ik, i.e. beta binds, or the returned "
         "sequence switches label); distinct by SHA-1 of the encoded case."
-        ' Tables of 4096..9002 rows (forward-DP oracle) and exact tables with a few entries of 2**57 that no optimal path uses are part of the exact class.')
+        ' Tables of 4096..9002 rows (forward-DP oracle) and exact tables with a few entries of 2**57 that no optimal path uses are part of the exact class.'
+        ' The labelling step itself (predict_cluster_labels on hand-built models, scalar and vector costs with large entries and exact zeros) is judged by the same exact oracle on the table seen at the hook.')
 ASSUMPTIONS = [
     "the reference forward Viterbi is itself cross-checked against exhaustive enumeration on every tiny case of the run",
     "class-F slack 8*T*eps*(sum_i max_k|c_ik| + sum beta) is an a-priori rounding bound for a T-step float DP; class E uses no tolerance",
